@@ -50,8 +50,9 @@ def dotted(n):
         return ""
 
 
-def ad_banned(tree):
-    """[(lineno, construct, reason)]"""
+def ad_banned(tree, coercions=True):
+    """[(lineno, construct, reason)]; coercions=False leaves float(x) / int(x) to a value-aware rule (the syntactic one
+    cannot tell int(order) from int(dt))"""
     out = []
     for n in ast.walk(tree):
         if isinstance(n, ast.Call):
@@ -66,7 +67,7 @@ def ad_banned(tree):
                 out.append((n.lineno, f, "numpy call: leaves the traced / differentiated computation"))
             if last == "astype" and n.args and dotted(n.args[0]) in ("int", "bool", "jnp.int32", "jnp.int64", "jnp.bool_"):
                 out.append((n.lineno, f + f"({dotted(n.args[0])})", "integer / boolean cast: zero derivative"))
-            if f in ("float", "int") and n.args and not isinstance(n.args[0], ast.Constant):
+            if coercions and f in ("float", "int") and n.args and not isinstance(n.args[0], ast.Constant):
                 out.append((n.lineno, f + "(...)", "python coercion of a (possibly traced / differentiated) value"))
             if last in ("item", "tolist") and isinstance(n.func, ast.Attribute):
                 out.append((n.lineno, f, "leaves the traced computation"))
